@@ -9,6 +9,7 @@ import (
 	"fmt"
 	"net"
 	"sort"
+	"time"
 )
 
 type VerifURR struct {
@@ -177,6 +178,22 @@ func (s *PfcpServer) VerifSetURRSeq(lid uint64, urr uint32, v uint32) bool {
 	}
 	info.SEQN = v
 	return true
+}
+
+// VerifFailWrites makes every write on the PFCP socket fail (write deadline in the past) until switched off again: a
+// transient send failure (ENOBUFS, unreachable for a moment) placed where the harness wants it
+func (s *PfcpServer) VerifFailWrites(on bool) {
+	s.connMu.Lock()
+	c := s.conn
+	s.connMu.Unlock()
+	if c == nil {
+		return
+	}
+	if on {
+		_ = c.SetWriteDeadline(time.Unix(1, 0))
+	} else {
+		_ = c.SetWriteDeadline(time.Time{})
+	}
 }
 
 func (s *PfcpServer) VerifChanLens() (int, int, int) { return len(s.rcvCh), len(s.srCh), len(s.trToCh) }
